@@ -1,0 +1,123 @@
+//go:build verif
+
+package circuitbreaker
+
+// Machine-checked contracts (comment-only; build tag verif). Checked by /verif/bin/hv.
+
+//@ pred cbCfg(cb *CircuitBreaker) := cb.maxRequests >= 1 && cb.failureThreshold >= 1 && cb.successThreshold >= 1
+//@      && cb.interval > 0 && cb.timeout > 0
+//@ pred cbInv(cb *CircuitBreaker) := cbCfg(cb) && 0 <= cb.state && cb.state <= 2
+//@      && (cb.state == StateHalfOpen ==> cb.requestCount <= cb.maxRequests && cb.successCount < cb.successThreshold)
+//@      && (cb.state == StateClosed ==> cb.failureCount < cb.failureThreshold)
+
+// Established by package initialisation (errors.New returns distinct non-nil values); assumed here.
+//@ axiom ErrCircuitBreakerOpen != nil && ErrTooManyRequests != nil && ErrCircuitBreakerOpen != ErrTooManyRequests
+
+// The state-change callback is invoked while the write lock is held. Assumed of the callback: it returns,
+// does not panic and does not touch the breaker. The callback Helios installs is verified against the
+// caller-side guarantee (write lock held) in internal/loadbalancer.
+//@ func fnvalue:(*CircuitBreaker).setState:onStateChange
+
+//@ func (*CircuitBreaker).setState
+//@   props C07 C08
+//@   mode seq, mon
+//@   requires wlocked(cb.mutex)
+//@   ensures set: cb.state == state
+//@   modifies cb.state
+
+//@ func (*CircuitBreaker).afterRequest
+//@   props C07 C08
+//@   mode seq, mon
+//@   requires unlocked(cb.mutex) && cbCfg(cb)
+//@   requires seq: cbInv(cb)
+//@   ensures seq: inv: cbInv(cb)
+//@   ensures seq: trial_success: success && old(cb.state) == StateHalfOpen ==>
+//@             (old(cb.successCount) + 1 >= cb.successThreshold
+//@                ? cb.state == StateClosed && cb.failureCount == 0
+//@                : cb.state == StateHalfOpen && cb.successCount == old(cb.successCount) + 1)
+//@   ensures seq: success_keeps: success && old(cb.state) != StateHalfOpen ==> cb.state == old(cb.state) && cb.failureCount == old(cb.failureCount)
+//@   ensures seq: trip: !success && old(cb.state) == StateClosed ==>
+//@             (old(cb.failureCount) + 1 >= cb.failureThreshold
+//@                ? cb.state == StateOpen && cb.nextAttempt == now() + cb.timeout
+//@                : cb.state == StateClosed && cb.failureCount == old(cb.failureCount) + 1)
+//@   ensures seq: reopen: !success && old(cb.state) == StateHalfOpen ==> cb.state == StateOpen && cb.nextAttempt == now() + cb.timeout
+//@   ensures seq: stamp: !success ==> cb.lastFailureTime == now()
+//@   ensures seq: open_stays: old(cb.state) == StateOpen ==> cb.state == StateOpen && cb.nextAttempt == old(cb.nextAttempt)
+//@   ensures seq: req_kept: cb.requestCount == old(cb.requestCount)
+//@   ensures seq: succ_le_req: old(cb.successCount) < old(cb.requestCount) && cb.state == StateHalfOpen ==> cb.successCount <= cb.requestCount
+//@   modifies cb.state, cb.failureCount, cb.successCount, cb.lastFailureTime, cb.lastSuccessTime, cb.nextAttempt
+
+//@ func (*CircuitBreaker).beforeRequest
+//@   props C07 C08
+//@   mode seq, mon
+//@   requires unlocked(cb.mutex) && cbCfg(cb)
+//@   requires seq: cbInv(cb)
+//@   ensures seq: inv: cbInv(cb)
+//@   ensures seq: closed_admits: old(cb.state) == StateClosed ==> result == nil && cb.state == StateClosed
+//@   ensures seq: no_reset_within_interval: old(cb.state) == StateClosed && (old(cb.lastFailureTime) == TZERO || old(cb.lastFailureTime) + cb.interval >= now())
+//@             ==> cb.failureCount == old(cb.failureCount)
+//@   ensures seq: open_blocks: old(cb.state) == StateOpen && old(cb.nextAttempt) >= now()
+//@             ==> result == ErrCircuitBreakerOpen && cb.state == StateOpen
+//@   ensures seq: open_to_half: old(cb.state) == StateOpen && old(cb.nextAttempt) < now()
+//@             ==> result == nil && cb.state == StateHalfOpen && cb.requestCount == 0 && cb.successCount == 0
+//@   ensures seq: half_limit: old(cb.state) == StateHalfOpen ==>
+//@             cb.state == StateHalfOpen && cb.requestCount == old(cb.requestCount) && cb.successCount == old(cb.successCount)
+//@             && (result == nil <==> old(cb.requestCount) < cb.maxRequests)
+//@             && (result != nil ==> result == ErrTooManyRequests)
+//@   modifies cb.state, cb.failureCount, cb.successCount, cb.requestCount
+
+// What holds whenever the lock is free, under every interleaving (the schedule-stable part of cbInv).
+//@ monitor CircuitBreaker.mutex cb
+//@   guards state, failureCount, successCount, requestCount, lastFailureTime, lastSuccessTime, nextAttempt
+//@   inv state_range: 0 <= cb.state && cb.state <= 2
+//@   inv admitted_le_max: cb.state == StateHalfOpen ==> cb.requestCount <= cb.maxRequests
+
+// quiescent: no trial request is in flight (every admitted trial has reported)
+//@ pred quiescent(cb *CircuitBreaker) := cb.state == StateHalfOpen ==> cb.requestCount == cb.successCount
+
+// fn is the protected operation: assumed not to touch the breaker (its fields are unexported); it may panic.
+//@ func fnvalue:(*CircuitBreaker).Execute:fn
+//@   may_panic
+
+//@ func (*CircuitBreaker).Execute
+//@   props C07 C08
+//@   mode seq, mon
+//@   may_panic
+//@   requires unlocked(cb.mutex) && cbCfg(cb) && fn != nil
+//@   requires seq: cbInv(cb)
+//@   ensures seq: inv: cbInv(cb)
+//@   ensures seq: at_most_once: calls(fn) <= 1
+//@   ensures seq: block: old(cb.state) == StateOpen && old(cb.nextAttempt) >= now()
+//@             ==> result == ErrCircuitBreakerOpen && calls(fn) == 0 && cb.state == StateOpen
+//@   ensures seq: half_open_bound: old(cb.state) == StateHalfOpen && old(cb.requestCount) >= cb.maxRequests
+//@             ==> result == ErrTooManyRequests && calls(fn) == 0
+//@   ensures seq: rejected_means_untouched: calls(fn) == 0 ==> result == ErrCircuitBreakerOpen || result == ErrTooManyRequests
+//@   ensures seq: closed_admits: old(cb.state) == StateClosed ==> calls(fn) == 1
+//@   ensures seq: trip: calls(fn) == 1 && result != nil && old(cb.state) == StateClosed
+//@             && (old(cb.lastFailureTime) == TZERO || old(cb.lastFailureTime) + cb.interval >= now())
+//@             && old(cb.failureCount) + 1 >= cb.failureThreshold ==> cb.state == StateOpen && cb.nextAttempt == now() + cb.timeout
+//@   ensures seq: trial_failure_reopens: calls(fn) == 1 && result != nil && old(cb.state) != StateClosed
+//@             ==> cb.state == StateOpen && cb.nextAttempt == now() + cb.timeout
+//@   ensures seq: closes_only_on_threshold: old(cb.state) != StateClosed && cb.state == StateClosed
+//@             ==> calls(fn) == 1 && result == nil && cb.successThreshold <= (old(cb.state) == StateHalfOpen ? old(cb.successCount) + 1 : 1)
+//@   ensures_panic seq: panic_counts_as_failure: calls(fn) == 1 && cb.lastFailureTime == now() && cbInv(cb)
+//@   modifies cb.state, cb.failureCount, cb.successCount, cb.requestCount, cb.lastFailureTime, cb.lastSuccessTime, cb.nextAttempt
+
+//@ func NewCircuitBreaker
+//@   props C07 C08
+//@   requires settings.Interval >= 0 && settings.Timeout >= 0
+//@   ensures fresh_obj: result != nil && fresh(result)
+//@   ensures inv: cbInv(result) && result.state == StateClosed && unlocked(result.mutex)
+//@   ensures cfg: result.maxRequests == (settings.MaxRequests == 0 ? 1 : settings.MaxRequests)
+//@             && result.successThreshold == (settings.SuccessThreshold == 0 ? 1 : settings.SuccessThreshold)
+//@             && result.failureThreshold == (settings.FailureThreshold == 0 ? 5 : settings.FailureThreshold)
+
+//@ func (*CircuitBreaker).State
+//@   props C07
+//@   requires unlocked(cb.mutex)
+//@   ensures result == cb.state
+
+//@ func (*CircuitBreaker).Counts
+//@   props C07 C08
+//@   requires unlocked(cb.mutex)
+//@   ensures failureCount == cb.failureCount && successCount == cb.successCount && requestCount == cb.requestCount
